@@ -18,8 +18,10 @@
  */
 
 use super::DataKeeper;
+use super::FSMResult;
 use super::FoldLore;
 use super::ResolvedSubTraceDescs;
+use super::StateFSMError;
 use super::SubTraceLoreCtor;
 
 /// This queue emulates behaviour of fold states traversal:
@@ -33,8 +35,13 @@ pub(super) struct SubTraceLoreCtorQueue {
 }
 
 impl SubTraceLoreCtorQueue {
-    pub(super) fn current(&mut self) -> &mut LoreCtorDesc {
-        &mut self.queue[self.back_traversal_pos - 1]
+    pub(super) fn current(&mut self) -> FSMResult<&mut LoreCtorDesc> {
+        // the queue could be empty or already traversed back if a script calls next
+        // outside of the iteration it belongs to
+        self.back_traversal_pos
+            .checked_sub(1)
+            .and_then(|position| self.queue.get_mut(position))
+            .ok_or(StateFSMError::FoldIterationNotFound)
     }
 
     pub(super) fn add_element(
